@@ -294,11 +294,58 @@ func (p *Parser) ParseUnaryExpression() ast.Expression {
 		Operator: p.CurrentToken.Literal,
 	}
 	p.NextToken()
+	operandToken := p.CurrentToken
 	expression.Right = p.expressionParseFn(p, UNARY)
+	if (expression.Token.Type == token.INCREMENT || expression.Token.Type == token.DECREMENT) && !isUpdateTarget(expression.Right) {
+		p.AddErrorAtToken("invalid increment/decrement operand", operandToken)
+	}
 	return expression
 }
 
+// isAssignmentTarget reports whether an expression may stand on the left of an assignment.
+// Only the core node types that JavaScript never accepts there are refused; array and object
+// literals are patterns whose elements must be targets themselves, and node types added by
+// plugins are left alone.
+func isAssignmentTarget(e ast.Expression) bool {
+	switch x := e.(type) {
+	case *ast.GroupedExpression:
+		return isAssignmentTarget(x.Expression)
+	case *ast.ArrayLiteral:
+		for _, el := range x.Elements {
+			if !isAssignmentTarget(el) {
+				return false
+			}
+		}
+	case *ast.ObjectLiteral:
+		for _, prop := range x.Properties {
+			if !isAssignmentTarget(prop.Value) {
+				return false
+			}
+		}
+	case *ast.IntegerLiteral, *ast.FloatLiteral, *ast.StringLiteral, *ast.MultiStringLiteral,
+		*ast.BooleanLiteral, *ast.NullLiteral, *ast.BinaryExpression, *ast.UnaryExpression,
+		*ast.PostfixExpression, *ast.CallExpression, *ast.FunctionExpression,
+		*ast.AssignmentExpression, *ast.CompoundAssignmentExpression, *ast.LetExpression:
+		return false
+	}
+	return true
+}
+
+// isUpdateTarget is isAssignmentTarget for the operand of ++ and --, which cannot be a pattern.
+func isUpdateTarget(e ast.Expression) bool {
+	switch x := e.(type) {
+	case *ast.GroupedExpression:
+		return isUpdateTarget(x.Expression)
+	case *ast.ArrayLiteral, *ast.ObjectLiteral:
+		return false
+	}
+	return isAssignmentTarget(e)
+}
+
 func (p *Parser) ParsePostfixExpression(left ast.Expression) ast.Expression {
+	if !isUpdateTarget(left) {
+		p.AddError("invalid increment/decrement operand")
+	}
 	expression := &ast.PostfixExpression{
 		Token:    p.CurrentToken,
 		Left:     left,
@@ -393,6 +440,9 @@ func (p *Parser) ParseBinaryExpression(left ast.Expression) ast.Expression {
 }
 
 func (p *Parser) ParseAssignmentExpression(left ast.Expression) ast.Expression {
+	if !isAssignmentTarget(left) {
+		p.AddError("invalid assignment target")
+	}
 	expression := &ast.AssignmentExpression{
 		Token: p.CurrentToken,
 		Left:  left,
@@ -403,6 +453,9 @@ func (p *Parser) ParseAssignmentExpression(left ast.Expression) ast.Expression {
 }
 
 func (p *Parser) ParseCompoundAssignmentExpression(left ast.Expression) ast.Expression {
+	if !isUpdateTarget(left) {
+		p.AddError("invalid assignment target")
+	}
 	expression := &ast.CompoundAssignmentExpression{
 		Token: p.CurrentToken,
 		Left:  left,
@@ -418,24 +471,42 @@ func (p *Parser) ParseCompoundAssignmentExpression(left ast.Expression) ast.Expr
 	return expression
 }
 
+// rejectPostfixOperand records an error when the value of x++ / x-- is used as callee or object:
+// in JavaScript a postfix expression cannot be continued by (, [ or a dot.
+func (p *Parser) rejectPostfixOperand(left ast.Expression) {
+	if _, ok := left.(*ast.PostfixExpression); ok {
+		p.AddError(fmt.Sprintf("unexpected token %s", p.CurrentToken.Literal))
+	}
+}
+
 func (p *Parser) ParseCallExpression(fn ast.Expression) ast.Expression {
+	p.rejectPostfixOperand(fn)
 	exp := &ast.CallExpression{Token: p.CurrentToken, Function: fn}
 	exp.Arguments = p.ParseExpressionList(token.RPAREN)
 	return exp
 }
 
 func (p *Parser) ParseMemberExpression(left ast.Expression) ast.Expression {
+	p.rejectPostfixOperand(left)
 	exp := &ast.MemberExpression{
 		Token:    p.CurrentToken,
 		Object:   left,
 		Computed: false,
 	}
 	p.NextToken()
+	propertyToken := p.CurrentToken
 	exp.Property = p.expressionParseFn(p, MEMBER)
+	switch exp.Property.(type) {
+	case *ast.GroupedExpression, *ast.IntegerLiteral, *ast.FloatLiteral, *ast.StringLiteral,
+		*ast.MultiStringLiteral, *ast.ArrayLiteral, *ast.ObjectLiteral, *ast.FunctionExpression,
+		*ast.UnaryExpression:
+		p.AddErrorAtToken("property name expected", propertyToken)
+	}
 	return exp
 }
 
 func (p *Parser) ParseComputedMemberExpression(left ast.Expression) ast.Expression {
+	p.rejectPostfixOperand(left)
 	exp := &ast.MemberExpression{
 		Token:    p.CurrentToken,
 		Object:   left,
